@@ -39,7 +39,7 @@ def strategy():
 
 
 def check_case(case, ev=None):
-    prog = case["prog"]
+    prog = dict(case["prog"], ctl_comments=True)
     mode = case["mode"]
     if mode == "page":
         prog = dict(prog, page='enable_loop="True"')
